@@ -150,7 +150,7 @@ class VBadEq:
 class VNestedOperation(FloatOperation):
     """Multiply by gain; `opts` is a nested mapping parameter (identity at depth > 1)."""
 
-    def _process_logic(self, data, gain: float = 1.0, opts: dict = None):
+    def _process_logic(self, data, gain: float = 1.0, opts: dict = None, opts2: dict = None):
         CALL_LOG.append(("VNestedOperation", data.data, gain))
         return FloatDataType(data.data * gain)
 
